@@ -378,6 +378,13 @@ func (e *Exec) evalExternal(call *ast.CallExpr, st *State, ctx *Ctx) []string {
 		return []string{e.eval(call.Fun.(*ast.SelectorExpr).X, st, ctx)}
 	case "path/filepath.Ext":
 		return []string{"(pathExt " + arg(0) + ")"}
+	case "path/filepath.Abs":
+		e.note("filepath.Abs / Rel / IsLocal are the uninterpreted functions pathAbsF/E, pathRelF/E, pathIsLocal (the working directory does not change during an evaluation: assumed)")
+		return []string{"(pathAbsF " + arg(0) + ")", "(pathAbsE " + arg(0) + ")"}
+	case "path/filepath.Rel":
+		return []string{"(pathRelF " + arg(0) + " " + arg(1) + ")", "(pathRelE " + arg(0) + " " + arg(1) + ")"}
+	case "path/filepath.IsLocal":
+		return []string{"(pathIsLocal " + arg(0) + ")"}
 	case "os.Stat":
 		e.note("os.Stat(p) fails with the uninterpreted error statE(p): the directory does not change during an evaluation (assumed)")
 		info0 := e.fresh(st, "fileinfo", "Int")
